@@ -197,6 +197,7 @@ func c04(r *ev.Run) {
 		s.Close()
 	}
 	r.Require("ask_redirects_observed", 20)
+	c04FailoverNoticed(r)
 	r.Require("moved_redirects_observed", 10)
 	r.Require("migrations_completed", 10)
 	r.Require("failovers_completed", 3)
@@ -650,4 +651,95 @@ func c04ModeB(r *ev.Run, s *sutc.SUT, seed int64, idx int, label string) {
 	if idx == 0 {
 		r.Sample(map[string]interface{}{"mode": "B", "clients": nclients, "operations": len(h.ops), "migration_steps": tail(migLog, 10)})
 	}
+}
+
+// c04FailoverNoticed: with the periodic slots refresh far away (10 min), a master dies and its replica is promoted. From then on the
+// owner of its slots is reachable, so errors have to stop: the failed requests themselves are the proxy's only signal. Bounded
+// restatement: at most 40 further requests (paced 25 ms) to a key of the dead master may fail after the promotion.
+func c04FailoverNoticed(r *ev.Run) {
+	s, err := startSUT(r, false, 600000, 20)
+	if err != nil {
+		r.Internal("start sut: %v", err)
+		return
+	}
+	defer s.Close()
+	rnd := rand.New(rand.NewSource(r.Seed + 404))
+	reps := 3
+	if r.Tier == "thorough" {
+		reps = 12
+	}
+	for rep := 0; rep < reps; rep++ {
+		cl, _, err := c04Cluster(rnd)
+		if err != nil {
+			r.Internal("fakecluster: %v", err)
+			return
+		}
+		cl.OnEvent = nil
+		svc, err := startRedisSvc(s, cl, cl.Addrs(), RedisOpts{ConnTimeout: 300 * time.Millisecond})
+		if err != nil || !svc.WaitRouting(1, 10*time.Second) {
+			r.Internal("service did not start: %v", err)
+			cl.Close()
+			return
+		}
+		ms := cl.Masters()
+		dead := ms[rnd.Intn(len(ms))]
+		key := keysFor(cl, dead, 1, "fo")[0]
+		conn, err := svc.Dial()
+		if err != nil {
+			r.Internal("dial: %v", err)
+			cl.Close()
+			return
+		}
+		conn.DoS(5*time.Second, "SET", key, "before")
+		idle := rep%2 == 0 // the connection to the dead master is idle when it dies, or has a request in flight
+		if !idle {
+			dead.Delay = func([][]byte) time.Duration { return 200 * time.Millisecond }
+			go func() {
+				c2, err := svc.Dial()
+				if err == nil {
+					c2.DoS(3*time.Second, "GET", key)
+					c2.Close()
+				}
+			}()
+			time.Sleep(30 * time.Millisecond)
+		}
+		dead.Stop(true)
+		time.Sleep(time.Duration(20+rnd.Intn(200)) * time.Millisecond)
+		repl := cl.Replicas(dead)[0]
+		cl.Lock()
+		cl.PromoteLocked(repl)
+		cl.Unlock()
+		failed, healedAfter := 0, -1
+		var lastErr string
+		for i := 0; i < 120; i++ {
+			v, err := conn.DoS(3*time.Second, "SET", key, fmt.Sprintf("after-%d", i))
+			if err != nil {
+				lastErr = err.Error()
+				conn.Close()
+				conn, _ = svc.Dial()
+				failed++
+			} else if v.Kind == resp.Error {
+				lastErr = string(v.Str)
+				failed++
+			} else {
+				healedAfter = i
+				break
+			}
+			time.Sleep(25 * time.Millisecond)
+		}
+		w := map[string]interface{}{"dead_master": dead.Idx, "promoted_replica": repl.Idx, "failed_requests_after_promotion": failed, "last_error": lastErr, "periodic_refresh": "10 min", "connection_idle_when_master_died": idle}
+		switch {
+		case healedAfter < 0:
+			r.Violation("C04:error-while-reachable:failover-unnoticed", fmt.Sprintf("120 requests over 3 s after the replica had been promoted (and is reachable) all failed: %s", lastErr), w)
+		case failed > 40:
+			r.Violation("C04:error-while-reachable:failover-noticed-late", fmt.Sprintf("%d requests failed after the replica had been promoted before one succeeded", failed), w)
+		default:
+			r.Count("failovers_noticed_without_periodic_refresh", 1)
+		}
+		r.Case(fmt.Sprintf("failover-noticed/idle=%v", idle))
+		conn.Close()
+		s.StopProc(svc.Name, 20*time.Second)
+		cl.Close()
+	}
+	r.Require("failovers_noticed_without_periodic_refresh", 1)
 }
